@@ -5,7 +5,10 @@ Ties the model functions the round-6 theorems of Props/C13.lean talk about to th
   dec rl|ahx|a85|lzw <hex>     Model/Filters.{rldecode,asciihexdecode,ascii85decode,lzwdecode}
                                vs runlength.rldecode / ascii85.asciihexdecode / ascii85.ascii85decode / lzw.lzwdecode
   sdec <k> <name>*k <hex>      Model/Filters.streamDecode (chain, no DecodeParms) vs PDFStream(...).get_data()
-  calls <strict> obj           Model/Lenient.resolve1Calls vs the number of getobj calls resolve1 makes
+  calls obj                    Model/Lenient.resolve1Calls vs the number of getobj calls resolve1 makes
+  ra_calls obj                 Model/Lenient.resolveAllCalls vs the getobj calls of resolve_all (no bound: exponential
+                               on shared DAGs, C13_resolve_all_calls_cex - compared only)
+  pred png|tiff c w b <hex>    Model/Filters.apply_png_predictor / apply_tiff_predictor vs utils.*
 
 and evaluates on the implementation, for every generated payload (valid encodings that are truncated, have a byte
 replaced / inserted / removed, and random bytes):
@@ -356,6 +359,21 @@ def check_calls(ctx: C.Ctx, g: Dict[int, Any], x, strict: bool, fails: Dict[str,
     return "calls " + M.tok(x), "V %d %d" % (doc.calls, bound), inp
 
 
+def check_ra_calls(ctx: C.Ctx, g: Dict[int, Any], x):
+    """getobj calls of pdftypes.resolve_all (non-STRICT) - compared with the model's count (no bound holds: see
+    C13_resolve_all_calls_cex); a private copy of the graph, as resolve_all may be handed cached objects."""
+    from pdfminer import pdftypes
+    from harness.props import c13_model as M
+    doc = M.StubDoc()
+    for n, v in g.items():
+        doc.objs[n] = M.to_py(v, doc)
+    px = M.to_py(x, doc)
+    res = M.guarded(lambda: pdftypes.resolve_all(px), seconds=5.0)
+    inp = {"op": "ra_calls", "graph": {str(n): M.tok(v) for n, v in g.items()}, "x": M.tok(x)}
+    ctx.branch("calls:resolve_all:%s" % ("more-than-objects" if doc.calls > len(g) + 1 else "le-objects"))
+    return "ra_calls " + M.tok(x), ("V %d" % doc.calls) if res[0] == "V" else res[0], inp
+
+
 def run_calls(ctx: C.Ctx, lines: List[str], impl: List[str], meta: List[Any], fails: Dict[str, Any]) -> None:
     from harness.props import c13_model as M
     rng = ctx.rng
@@ -378,6 +396,20 @@ def run_calls(ctx: C.Ctx, lines: List[str], impl: List[str], meta: List[Any], fa
             line, out, inp = check_calls(ctx, g, x, rng.random() < 0.3, fails)
             lines.append(line); impl.append(out); meta.append(("calls", inp))
             ctx.case(("calls", tuple(sorted(inp["graph"].items())), inp["x"]), x[0] == "ref")
+            if gi % 2 == 0:
+                line, out, inp = check_ra_calls(ctx, g, x)
+                lines.append(line); impl.append(out); meta.append(("ra_calls", inp))
+    # the shared-DAG counter-example of C13_resolve_all_calls_cex, on the implementation: 2^(n+1) - 1 calls
+    for n in (6, 10, 11):
+        g = {k: ("arr", [("ref", k + 1), ("ref", k + 1)]) for k in range(1, n + 1)}
+        lines.append(" ".join(["G", str(len(g))] + ["%d %s" % (k, M.tok(v)) for k, v in g.items()]))
+        impl.append("ok")
+        meta.append(("G", None))
+        line, out, inp = check_ra_calls(ctx, g, ("ref", 1))
+        if out != "V %d" % (2 ** (n + 1) - 1):
+            ctx.notes.append("resolve_all on the shared DAG of %d objects: %s (model: %d calls)" % (n, out, 2 ** (n + 1) - 1))
+        lines.append(line); impl.append(out); meta.append(("ra_calls", inp))
+        ctx.case(("ra_calls-diamond", n), True)
 
 
 def replay_codec(ctx: C.Ctx, inp: Dict[str, Any]) -> bool:
@@ -390,6 +422,10 @@ def replay_codec(ctx: C.Ctx, inp: Dict[str, Any]) -> bool:
         check_stream(ctx, [bytes.fromhex(n) for n in inp["names"]], bytes.fromhex(inp["data"]), fails)
     elif op == "pred":
         check_pred(ctx, inp["kind"], int(inp["colors"]), int(inp["columns"]), int(inp["bpc"]), bytes.fromhex(inp["data"]), fails)
+    elif op == "ra_calls":
+        from harness.props import c13_model as M
+        g = {int(n): M.untok(t.split(" "))[0] for n, t in inp["graph"].items()}
+        check_ra_calls(ctx, g, M.untok(inp["x"].split(" "))[0])
     elif op == "calls":
         from harness.props import c13_model as M
         g = {int(n): M.untok(t.split(" "))[0] for n, t in inp["graph"].items()}
